@@ -20,7 +20,7 @@ Theorem C09_monitor_flags_wrong_ship_id :
       BReport 8 false; BReport 13 false; BReport 19 false; BReport 22 false; BReport 24 false;
       BReport 26 false; BReport 27 false; BReport 31 false; BReport 36 false;
       BEv (mkEv (CRecv NotDatagram NoClose (MAcc (AccId false false))) false false true None);
-      BReport 37 false; BSetup]) = [40].
+      BReport 37 false; BSetup]) = [40; 44].
 Proof. exact mon_flags_wrong_ship_id. Qed.
 Print Assumptions C09_monitor_flags_wrong_ship_id.
 
@@ -35,3 +35,25 @@ Theorem C09_checker_accepts_every_model_run :
     check_C09 (model_case r stored local es) = [].
 Proof. intros r s l es. pose proof (checkers_accept_model r s l es) as H. cbv zeta in H. tauto. Qed.
 Print Assumptions C09_checker_accepts_every_model_run.
+
+(* with a stored id the device is set up only after the peer has presented exactly that id in the
+   access-methods phase (code 44) - a handshake that reaches the setup without it is flagged -
+   and a reply without a usable id is an error whether or not an id is stored *)
+Theorem C09_monitor_flags_setup_without_presented_id :
+  viol_codes (mon_run (init_ms Client true)
+     [BReport 1 false; BReport 2 false; BReport 3 false; BReport 6 false; BReport 7 false;
+      BReport 8 false; BReport 13 false; BReport 19 false; BReport 22 false; BReport 24 false;
+      BReport 26 false; BReport 27 false; BReport 31 false; BReport 36 false;
+      BReport 37 false; BSetup]) = [44].
+Proof. vm_compute. reflexivity. Qed.
+Print Assumptions C09_monitor_flags_setup_without_presented_id.
+
+Theorem C09_monitor_flags_setup_after_reply_without_id :
+  viol_codes (mon_run (init_ms Client false)
+     [BReport 1 false; BReport 2 false; BReport 3 false; BReport 6 false; BReport 7 false;
+      BReport 8 false; BReport 13 false; BReport 19 false; BReport 22 false; BReport 24 false;
+      BReport 26 false; BReport 27 false; BReport 31 false; BReport 36 false;
+      BEv (mkEv (CRecv NotDatagram NoClose (MAcc AccNoId)) false false true None);
+      BShipId; BReport 37 false; BSetup]) = [40].
+Proof. vm_compute. reflexivity. Qed.
+Print Assumptions C09_monitor_flags_setup_after_reply_without_id.
